@@ -9,7 +9,7 @@ from lib.common import hx, Corr
 # modules re-checked with leanchecker in the thorough tier
 LEANCHECK = ['Proofs.UtilNum', 'Proofs.UtilSig', 'Proofs.UtilTie', 'Props.C12']
 
-RULE = ("orders: the 17 curve orders, {2,3,255,256,257,65535,65536,65537} and random orders of 9..600 bits; r, s in "
+RULE = ("orders: the 17 curve orders, {2,3,255,256,257,65535,65536,65537} random orders of 9..600 bits and of 992..4100 bits (DER size boundaries); r, s in "
         "{0,1,127,128,255,256,n//2,n-2,n-1, top bit set in the leading byte, one/two leading zero bytes, random} (all pairs for "
         "n <= 16, every r against boundary s for n <= 300); the three encoders, helper functions also at num >= 256^orderlen; "
         "raw decoders on every length 0..2l+2 (random bytes and slices / extensions of valid encodings), sigdecode_strings "
@@ -129,6 +129,11 @@ def orders(ctx):
     bits = [9, 12, 33, 63, 64, 65, 70, 127, 128, 161, 300, 520, 521, 600]
     for b in (ctx.rng.sample(bits, 5) if ctx.quick else bits * 3):
         ns.append(("rand%d" % b, ctx.rng.getrandbits(b) | (1 << (b - 1)) | 1))
+    # size boundaries of the DER form, on every run: the INTEGER content reaches 127 / 128 bytes (long-form length of the
+    # INTEGER itself) at 1008 / 1009 / 1016 / 1017 bits, the SEQUENCE body reaches 256 bytes (`82` length) near 1000 bits;
+    # 2048 and 4100 bits are beyond every named size (round-8 seed C12-mut51-2 bounded the blob by 3 + 2*(3 + orderlen))
+    for b in (992, 993, 1008, 1009, 1016, 1017, 1024, 2048, 4100):
+        ns.append(("big%d" % b, ctx.rng.getrandbits(b) | (1 << (b - 1)) | 1))
     return ns
 
 
